@@ -103,6 +103,11 @@ def handleCast (mode : String) (rest : List String) : String :=
   match fts.mapM parseFormal, ats.mapM parseArg with
   | some sfs, some args =>
     let fs := sfs.map SFormal.formal
+    if mode.startsWith "staticat:" then
+      match (mode.drop 9).toString.toNat? with
+      | some v => showRes (castStaticAt v fs args)
+      | none => "bad-op"
+    else
     match mode with
     | "static" => showRes (castStatic fs args)
     | "dynamic" => showRes (castDynamic fs args)
